@@ -1545,6 +1545,14 @@ structure PdInv (proj : Project) (s : St) : Prop where
   started : ∀ i S, path s.reg i = some (sitePath proj S) → StaticSite proj S → S.2 ≠ [] → getPs s S.1 ≠ .unprocessed
   complete : ∀ m md, proj[m]? = some md → getPs s m = .processed → CompleteStmts s m md.body
 
+/-- the invariant does not speak about the `pending` order -/
+theorem PdInv.setPending {proj : Project} {s : St} (h : PdInv proj s) (l : List Nat) : PdInv proj { s with pending := l } :=
+  { reg := h.reg, cbase := h.cbase, lens := h.lens, mods := h.mods, site := h.site, alias := h.alias, cont := h.cont,
+    alls := h.alls, started := h.started,
+    complete := fun m md hm hp => by
+      have he : ExtObjs s { s with pending := l } := ExtObjs.of_reg rfl
+      exact CompleteStmts.extObjs he _ (h.complete m md hm hp) }
+
 /-! ## `setAlias` -/
 
 theorem setAlias_get_ne {s : St} {ctx : Nat} {k : Name} {v : Path} {i : Nat} (h : i ≠ ctx) :
@@ -1838,7 +1846,19 @@ theorem pbm_bad {pm : St → Nat → St} (hpm : Sticky pm) {s : St} {ob : Nat}
   unfold processBeforeMove at h
   split at h
   · split at h
-    · exact gpm_bad hpm h
+    · simp only at h
+      have hf : ∀ (l : List Nat) (st : St),
+          (l.foldl (fun st m => if getPs st m == .unprocessed then pm st m else st) st).bad = false → st.bad = false := by
+        intro l
+        induction l with
+        | nil => intro st h; exact h
+        | cons m r ih =>
+          intro st h
+          have := ih _ h
+          by_cases hu : (getPs st m == .unprocessed) = true
+          · simp only [hu, if_true] at this; exact hpm _ _ this
+          · simp only [hu] at this; exact this
+      exact gpm_bad hpm (hf _ _ h)
     · simp at h
   · exact h
 
@@ -3000,7 +3020,7 @@ theorem getPs_replicate {s : St} {n : Nat} (h : s.ps = List.replicate n .unproce
 theorem initSt_ok {proj : Project} {rank : List Nat} (wf : WFacts proj rank) :
     (initSt proj).bad = false ∧ PdInv proj (initSt proj) ∧ ∀ t, getPs (initSt proj) t ≠ .processing := by
   unfold initSt
-  have h0 : InitInv proj 0 ⟨Registry.init, List.replicate proj.length .unprocessed, List.replicate proj.length none, [], false⟩ :=
+  have h0 : InitInv proj 0 ⟨Registry.init, List.replicate proj.length .unprocessed, List.replicate proj.length none, [], false, []⟩ :=
     ⟨inv_holds_init, rfl, fun m hm => by omega, rfl, rfl, rfl⟩
   obtain ⟨hI, hb⟩ := addModules_ok wf proj 0 _ (Nat.zero_le _) (by simp) h0 rfl
   generalize addModules proj _ = s at hb hI
@@ -3108,7 +3128,7 @@ theorem run_ok {proj : Project} {rank : List Nat} (wf : WFacts proj rank) (nr : 
   unfold run at hb ⊢
   have hb0 := process_bad order _ hb
   obtain ⟨_, hI0, hn0⟩ := initSt_ok wf
-  obtain ⟨h1, h2, _, h4⟩ := process_ok wf nr order _ hI0 hn0 hb
+  obtain ⟨h1, h2, _, h4⟩ := process_ok wf nr order _ (hI0.setPending order) (fun t => hn0 t) hb
   exact ⟨h1, h2, h4⟩
 
 /-! ## name resolution on a finished state -/
